@@ -28,23 +28,21 @@ Theorem C08_mp4_delete f f' atoms path :
 Proof. exact (c08_delete f f' atoms path). Qed.
 Print Assumptions C08_mp4_delete.
 
-(* delete twice = delete once does NOT hold in general: with several free atoms before ilst each delete consumes one more
-   (the padding search prefers the atom before ilst, the save writes its free atom behind it).  Witness by computation. *)
+(* delete twice = delete once, for any number of free atoms around ilst: the free atom a save writes (behind ilst) is the one
+   the next lookup takes as padding *)
+Theorem C08_mp4_delete_idempotent f f' atoms path :
+  mp4_wf f = true -> mp4_atoms f = Ok atoms -> mp4_path atoms ILST_PATH = Some path -> mp4_tags_clean atoms = true ->
+  mp4_delete f = Ok f' -> mp4_delete f' = Ok f'.
+Proof. exact (c08_delete_idempotent f f' atoms path). Qed.
+Print Assumptions C08_mp4_delete_idempotent.
+
+(* regression witness of the defect fixed in /repo: two free atoms before ilst (each delete used to consume one more) *)
 Definition c08_two_free : list Z :=
   mp4_build (mkLayout true 2 false (-1) [MHdlr; MFree 10; MFree 20; MIlst] mp4_empty_ilst
                [mkTrak false true [0; 5]] [] (mp4_pattern 16 1) 0 0 false).
-Example C08_mp4_delete_idempotent_refuted :
-  exists f, mp4_wf f = true /\
-    match mp4_delete f with
-    | Ok f1 => match mp4_delete f1 with Ok f2 => negb (list_eqb f1 f2) | _ => false end
-    | _ => false end = true.
-Proof. exists c08_two_free. vm_compute. split; reflexivity. Qed.
-(* ... and does hold on the usual shape (free atom behind ilst) *)
-Definition c08_usual : list Z :=
-  mp4_build (mkLayout true 2 false (-1) [MHdlr; MIlst; MFree 30] mp4_empty_ilst
-               [mkTrak false true [0; 5]] [] (mp4_pattern 16 1) 0 0 false).
 Example C08_mp4_delete_idempotent_ex :
-  match mp4_delete c08_usual with
+  mp4_wf c08_two_free = true /\
+  match mp4_delete c08_two_free with
   | Ok f1 => match mp4_delete f1 with Ok f2 => list_eqb f1 f2 | _ => false end
   | _ => false end = true.
-Proof. vm_compute. reflexivity. Qed.
+Proof. vm_compute. split; reflexivity. Qed.
